@@ -493,7 +493,7 @@ def _slice_cases_all():
 
 
 def gen_fc(rng: Rng, k):
-    kinds = ["I", "I", "D", "D2", "B", "M", "MI"]
+    kinds = ["I", "I", "D", "D2", "B", "M", "MI", "I2", "I2"]
     kind = kinds[k % len(kinds)]
     n = rng.randint(3, 6)
     ix = rng.choice([["s", 1, None, None], ["s", None, None, -1], ["s", None, n - 1, None], ["a", [n - 1, 1]], ["a", [2, 0, 1]],
@@ -705,7 +705,19 @@ def _fc_data(case):
         b = Basis("fourier", n_functions=3, argvals=A.DenseArgvals({"input_dim_0": np.linspace(0, 1, 11)}))
         return FD.BasisFunctionalData(b, np.array([[float(rng.dyadic(-2, 2, 4)) for _ in range(3)] for _ in range(n)]))
 
+    def irreg2():
+        a, v = {}, {}
+        for k in range(n):
+            m1, m2 = rng.randint(3, 5), rng.randint(3, 4)
+            t = np.array(sorted(rng.sample(range(0, 9), m1))) / 8.0
+            u = np.array(sorted(rng.sample(range(0, 9), m2))) / 8.0
+            a[k] = A.DenseArgvals({"input_dim_0": t, "input_dim_1": u})
+            v[k] = np.array([[float(rng.dyadic(-1, 1, 5)) + (k + 1) * x * (1 + y) for y in u] for x in t])
+        return FD.IrregularFunctionalData(A.IrregularArgvals(a), V.IrregularValues(v))
+
     d = case["data"]
+    if d == "I2":
+        return irreg2()
     if d == "I":
         return irreg()
     if d == "D":
@@ -1112,7 +1124,7 @@ def oracle(case, impl):
             what = f"{case['data']} data, n_obs={case['n']}, subset {case['ix']}"
             # `MultivariateFunctionalData.normalize` concatenates the single observations `self[0], self[1], …`,
             # whose irregular components keep their labels: the concatenation clause fails inside it
-            via_concat = (name.startswith("concat") and case["data"] in ("I", "MI")) or (name == "normalize" and case["data"] == "MI")
+            via_concat = (name.startswith("concat") and case["data"] in ("I", "MI", "I2")) or (name == "normalize" and case["data"] == "MI")
             if via_concat:
                 entry = "concatenate" if name.startswith("concat") else "normalize"
             if r["sub_err"] != r["twin_err"] and via_concat:
